@@ -29,7 +29,9 @@ func init() {
 	}
 	replayers["C07/addduration"] = func(v rt.Violation) string {
 		c := rt.ReplayCtx("C07")
-		c.Serial("replay", func(w *rt.W) { c07AddDuration(w, rt.ArgInt(v, "a_ordinal"), time.Duration(rt.ArgInt(v, "duration_ns"))) })
+		c.Serial("replay", func(w *rt.W) {
+			c07AddDuration(w, rt.ArgInt(v, "a_ordinal"), time.Duration(rt.ArgInt(v, "duration_ns")))
+		})
 		return c.Report()
 	}
 	replayers["C07/fromtime"] = func(v rt.Violation) string {
